@@ -18,6 +18,8 @@ func main() {
 		os.Exit(cmdExplore(os.Args[2:]))
 	case "check":
 		os.Exit(cmdCheck(os.Args[2:]))
+	case "findcycle":
+		os.Exit(cmdFindCycle(os.Args[2:]))
 	case "learn":
 		os.Exit(cmdLearn(os.Args[2:]))
 	case "c05worker":
@@ -28,6 +30,10 @@ func main() {
 			fmt.Sscan(os.Args[3], &from)
 		}
 		os.Exit(c05Worker(n, from))
+	case "c07worker":
+		var seed uint64 = 1
+		fmt.Sscan(os.Args[2], &seed)
+		os.Exit(c07Worker(seed, os.Args[3] == "thorough", os.Args[4]))
 	case "c06worker":
 		var seed uint64 = 1
 		rounds := 3
